@@ -37,9 +37,10 @@ def plan(tier):
             'texts / JSON objects / diffs / codecs from mc/alphabets.py',
             'text is encodable in its effective codec (unencodable text is '
             'C09 territory)',
-            'texts whose UTF-16/32 bytes contain a misaligned newline byte '
-            'pattern are excluded (line = text line vs byte pattern is '
-            'ambiguous in the specification)',
+            'INDENTED texts whose UTF-16/32 bytes contain a misaligned '
+            'newline byte pattern are excluded (line = text line vs byte '
+            'pattern is ambiguous in the specification); un-indented ones '
+            'are in (nothing is split there)',
         ],
     }
 
